@@ -480,7 +480,7 @@ def suite_crash(seed, tier):
             if tier == "quick" and len(points) > 14:
                 # the writes of the first round (one .npy then one .pkl per task) are all kept
                 head = points[:3 * len(case["files"])] if many else []
-                points = sorted(set(head) | set(rng.sample(points, 14)))
+                points = sorted(set(head) | set(points[-6:]) | set(rng.sample(points, 14)))
             for cp in points:
                 d = tmp / f"c{cp}"
                 d.mkdir()
@@ -490,12 +490,10 @@ def suite_crash(seed, tier):
                 after = read_dir(d, case["nf"])
                 names = [n for n, _ in after]
                 if crashed and "clusters.pkl" in names:
-                    fin = finals(after)
-                    ref_nc = variants[0][3]
-                    if fin[0] != ref_nc[0]:
-                        r.bad.append({"suite": "crash", "what": f"a run that failed at file action {cp} left a "
-                                      "final cluster file that is not the complete result", "case": case})
-                        break
+                    r.bad.append({"suite": "crash", "what": f"a run that failed at file action {cp} of {total} "
+                                  "left a final cluster file (clusters.pkl) behind", "case": case,
+                                  "crash_at": cp, "rerun": "none", "rerun_files": list(range(len(case["files"])))})
+                    break
                 name, v, vp, ref = variants[2] if (many and cp <= 3 * len(case["files"])) else variants[cp % 3]
                 # files the workflow does not own must survive the re-run untouched
                 (d / "zz-foreign.txt").write_text("x")
@@ -695,6 +693,9 @@ def replay_c14(payload):
             v, vp = {**case, "files": case["files"][1:]}, paths[1:]
         (tmp / "fresh").mkdir()
         (tmp / "used").mkdir()
+        if name == "none":
+            _, crashed = count_and_crash({**case, "cfg": {**case["cfg"], "cleanup": False}}, paths, tmp / "used", cp)
+            return not (crashed and (tmp / "used" / "clusters.pkl").exists())
         try:
             run_impl(v, tmp / "fresh", None, paths=vp)
             count_and_crash({**case, "cfg": {**case["cfg"], "cleanup": False}}, paths, tmp / "used", cp)
